@@ -61,6 +61,12 @@ func zHistoryOpOn(op int, s Serializer, e *Encoder, d *Decoder, probe *ZPair) {
 			refClassDef("ZInner", []string{"s", "n"}), []byte{0x61}, refStr("x"), refInt(1), []byte{0x51, 0x91}, refInt(3))
 		s.ToObject(w)
 		d.Decode(w)
+	case 11: // decodes that fail deep inside nested containers (reflect panics recovered at the entry point)
+		bad := refCat([]byte{0x79, 0x79, 0x79, 'V'}, refStr("[int32"), refInt(1), refStr("not-an-int"))
+		for i := 0; i < 3; i++ {
+			s.ToObject(bad)
+			d.Decode(bad)
+		}
 	case 10: // a failed encode of a container holding the probe's objects
 		if probe != nil {
 			bad := []interface{}{probe.A, probe, make(chan int)}
@@ -113,7 +119,7 @@ func H_C11_reuse_refs() {
 		h = 2
 	}
 	for i := 0; i < h; i++ {
-		zHistoryOpOn(vChoice("op", 11), s, e, d, probe)
+		zHistoryOpOn(vChoice("op", 12), s, e, d, probe)
 	}
 	vFreeze(probe, "probe-value")
 	vFreeze(nm, "name-map")
@@ -242,4 +248,35 @@ func H_C11_register() {
 	o, err := d.Decode(fresh)
 	g, ok := o.(*ZOuter)
 	vAssert("decode-same", err == nil && ok && eqZOuter(probe, g))
+}
+
+// H_C11_reset_state: every one-shot entry point starts with Reset. After any history, Reset must leave the
+// instance in exactly the state a fresh instance has after Reset - every field, including ones added later -
+// which makes "reused equals fresh" hold for histories of any length.
+func H_C11_reset_state() {
+	in := &ZInner{N: 4, S: "sh"}
+	probe := &ZPair{N: 3, A: in, B: in, L: []*ZInner{in}}
+	tm, nm := vExtractAll(probe, &ZTriple{})
+	tm["[int32"] = reflect.TypeOf([]int32{})
+	s := NewSerializer(tm, nm)
+	e := NewEncoder(nil, nm)
+	d := NewDecoder(nil, tm)
+	h := 1 + vChoice("len", 2)
+	for i := 0; i < h; i++ {
+		zHistoryOpOn(vChoice("op", 12), s, e, d, probe)
+	}
+	w := &vBufWriter{}
+	r := &vCountingReader{}
+	e.Reset(w)
+	fe := NewEncoder(nil, nm)
+	fe.Reset(w)
+	vAssert("encoder-reset-is-fresh", vSameState(e, fe))
+	d.Reset(r)
+	fd := NewDecoder(nil, tm)
+	fd.Reset(r)
+	vAssert("decoder-reset-is-fresh", vSameState(d, fd))
+	gs := s.(*goHessian)
+	gs.encoder.Reset(w)
+	gs.decoder.Reset(r)
+	vAssert("serializer-reset-is-fresh", vAnd(vSameState(gs.encoder, fe), vSameState(gs.decoder, fd)))
 }
